@@ -9,7 +9,48 @@ import (
 
 // ---------- C08: task requests: one effective answer, declared results stored, error modes kept ----------
 
+// genC08Parallel: several tasks in parallel branches declare results and are answered at almost the
+// same time (also by duplicate Do calls); every declared result must be stored and visible afterwards.
+func genC08Parallel(d *Draw) Case {
+	defs := &Definitions{}
+	g := &Graph{ID: "P1", Executable: true}
+	defs.Procs = []*Graph{g}
+	k := 2 + d.N(3)
+	g.addNode(&Node{ID: "Start", Kind: "start"})
+	g.addNode(&Node{ID: "F", Kind: "and"})
+	g.connect(defs, "Start", "F", nil, -1)
+	g.addNode(&Node{ID: "J", Kind: "and"})
+	scripts := map[string][]AnswerSpec{}
+	var props []string
+	for i := 1; i <= k; i++ {
+		id := fmt.Sprintf("P%d", i)
+		g.addNode(&Node{ID: id, Kind: "task", Results: []string{"r_" + id, "v_" + id}})
+		g.connect(defs, "F", id, nil, -1)
+		g.connect(defs, id, "J", nil, -1)
+		sp := AnswerSpec{Results: map[string]any{"v_" + id: fmt.Sprintf("val%d", 10+i)}}
+		if d.N(3) == 2 {
+			sp.Calls = 2
+			sp.Conc = d.Bool()
+		}
+		scripts[id] = []AnswerSpec{sp}
+		props = append(props, "v_"+id)
+	}
+	g.addNode(&Node{ID: "TZ", Kind: "task", Results: []string{"r_TZ"}, Props: props})
+	g.connect(defs, "J", "TZ", nil, -1)
+	g.addNode(&Node{ID: "End", Kind: "end"})
+	g.connect(defs, "TZ", "End", nil, -1)
+	g.index()
+	prog := &Program{Defs: defs, Vars: map[string]any{}, Desc: fmt.Sprintf("%d parallel result-writing tasks -> join -> TZ", k)}
+	c := &ProcCase{Prog: prog, Buf: d.N(17), Hold: 1 + d.N(2), LogProps: true, Scripts: scripts}
+	c.Picks = drawPicks(d, 24)
+	c.Meta = map[string]int{"parallel": k}
+	return c
+}
+
 func genC08(d *Draw) Case {
+	if d.N(4) == 3 {
+		return genC08Parallel(d)
+	}
 	defs := &Definitions{}
 	g := &Graph{ID: "P1", Executable: true}
 	defs.Procs = []*Graph{g}
@@ -174,9 +215,20 @@ func checkC08(cc Case, r *simrt.Result) *Outcome {
 			vl.add("C08/undeclared-stored", "undeclared result u_T1 was stored as a variable")
 		}
 	}
+	if k := c.Meta["parallel"]; k > 0 && tg.Quiesced && len(tg.Viol) == 0 {
+		if pv, ok := props["TZ"]; ok {
+			for i := 1; i <= k; i++ {
+				name := fmt.Sprintf("v_P%d", i)
+				if canon(pv[name]) != canon(fmt.Sprintf("val%d", 10+i)) {
+					vl.add("C08/result-not-visible", "TZ.GetProperties()[%s] = %v, the answer of P%d stored %d", name, pv[name], i, 10+i)
+				}
+			}
+		}
+	}
 	o.Viol = vl.v
 	o.Nontrivial = r.Switches > 0
 	fc := c.env.FaultCounts()
+	probe(o, "parallel-result-writers", c.Meta["parallel"] > 0)
 	probe(o, "duplicate-answer", fc["duplicate-answer"] > 0)
 	probe(o, "concurrent-answers", fc["concurrent-answers"] > 0)
 	probe(o, "late-handler-decision", fc["error-handler-decision-late"] > 0)
